@@ -22,14 +22,18 @@ def handle (op real : String) : Verdict := Id.run do
   let mut specBad : Option String := none
   let realToks := splitNE real " "
   let mut idx := 0
+  let mut v := if max < 4 then max else 4
   for t in toks do
     if t.startsWith "M:" then continue
+    if t.startsWith "V:" then
+      -- the client goes on in another protocol version; no frame, no answer
+      v := (t.drop 2).toString.toNat?.getD 4
+      continue
     let realTok := realToks.getD idx "?"
     idx := idx + 1
     if closed then
       outs := outs ++ ["closed"]
       continue
-    let v := if max < 4 then max else 4
     let parts := t.splitOn ":"
     let o : List Out ← match parts with
       | ["X", vb, opc] =>
@@ -46,7 +50,9 @@ def handle (op real : String) : Verdict := Id.run do
         pure [Front.gate max p]
       | ["O"] => pure [Front.gate max ⟨v, 5, true⟩]
       | "S" :: comp :: _ =>
-        let (o, c') := Front.startup conn (if comp == "-" then none else some comp)
+        -- the version gate comes first: a STARTUP in a version that is not accepted gets the version error
+        let g := Front.gate max ⟨v, 1, true⟩
+        let (o, c') := if g == .ready then Front.startup conn (if comp == "-" then none else some comp) else ([g], conn)
         conn := c'
         if realTok.startsWith "perr-compression+" then specBad := some s!"STARTUP with unsupported compression '{comp}' answered by {realTok}"
         pure o
